@@ -36,6 +36,9 @@ const HY: &str = "$y$j9T$5wi.DzZbm2DpKvs8pmZgi1$xGjUwC1UjEwfFOIRDVjZTkdw8S2S6Zdk
 struct Handler {
     input: usize,
     prompts: Cell<usize>,
+    /// what an earlier module of the stack left as the password: 0 nothing, 1 the right
+    /// password, 2 a wrong one
+    stacked: usize,
 }
 
 impl Handler {
@@ -64,7 +67,11 @@ impl PamHandler for Handler {
         Ok(())
     }
     fn authtok(&self) -> PamResult<Option<String>> {
-        Ok(None)
+        Ok(match self.stacked {
+            1 => Some(RIGHT.to_string()),
+            2 => Some("wrong-password".to_string()),
+            _ => None,
+        })
     }
     fn message(&self, _prompt: &str) -> PamResult<()> {
         if self.input == 3 {
@@ -179,6 +186,10 @@ fn opts(ignore_unknown: bool) -> ModuleOptions {
     ModuleOptions { debug: false, use_first_pass: false, ignore_unknown_user: ignore_unknown }
 }
 
+fn opts_fp(ignore_unknown: bool, use_first_pass: bool) -> ModuleOptions {
+    ModuleOptions { debug: false, use_first_pass, ignore_unknown_user: ignore_unknown }
+}
+
 fn shadow_alphabet() -> Vec<(&'static str, String, bool)> {
     // (label, password field, does it hold a supported hash of RIGHT)
     vec![
@@ -201,7 +212,7 @@ fn shadow_alphabet() -> Vec<(&'static str, String, bool)> {
 enum Case {
     Auth { seq: Vec<usize>, input: usize, ign: bool },
     Acct { reply: usize, ign: bool },
-    Local { shadow: usize, expiry: usize, input: usize, present: bool },
+    Local { shadow: usize, expiry: usize, input: usize, present: bool, first_pass: bool, stacked: usize },
 }
 
 /// (reported success, violation)
@@ -213,7 +224,7 @@ fn eval(case: &Case, now: OffsetDateTime) -> (bool, Option<(String, String, serd
             let script: Vec<Reply> = seq.iter().map(|i| alpha[*i].1.clone()).collect();
             let d = daemon(b, script);
             let client = DaemonClientBlocking::from(a);
-            let h = Handler { input: *input, prompts: Cell::new(0) };
+            let h = Handler { input: *input, prompts: Cell::new(0), stacked: 0 };
             let res = sm_authenticate_connected(&h, &opts(*ign), now, &client);
             drop(client);
             let seen = d.join().unwrap_or(0);
@@ -237,7 +248,7 @@ fn eval(case: &Case, now: OffsetDateTime) -> (bool, Option<(String, String, serd
             let (label, r) = &acct[*reply];
             let Ok((a, b)) = UnixStream::pair() else { return (false, None) };
             let d = daemon(b, vec![r.clone()]);
-            let h = Handler { input: 0, prompts: Cell::new(0) };
+            let h = Handler { input: 0, prompts: Cell::new(0), stacked: 0 };
             // (the thread-local client of this thread is replaced by every Test socket)
             let res = acct_mgmt(&h, &opts(*ign), RequestOptions::Test { socket: Some(a), users: vec![], shadow: vec![] }, now);
             let _ = d.join();
@@ -249,18 +260,21 @@ fn eval(case: &Case, now: OffsetDateTime) -> (bool, Option<(String, String, serd
             }
             (false, None)
         }
-        Case::Local { shadow, expiry, input, present } => {
+        Case::Local { shadow, expiry, input, present, first_pass, stacked } => {
             let user = |name: &str| EtcUser { name: name.into(), password: "x".into(), uid: 1000, gid: 1000, gecos: String::new(), homedir: "/home/a".into(), shell: "/bin/sh".into() };
             let (slabel, field, good_hash) = shadow_alphabet().swap_remove(*shadow);
             let (elabel, exp, expired) = expiries(now).swap_remove(*expiry);
             let sh = EtcShadow { name: if *present { "alice".into() } else { "bob".into() }, password: CryptPw::from_str(&field).unwrap_or_default(), epoch_expire_seconds: exp, ..Default::default() };
-            let h = Handler { input: *input, prompts: Cell::new(0) };
-            let res = sm_authenticate_fallback(&h, &opts(false), now, vec![user("alice")], vec![sh.clone()]);
-            let may = *present && good_hash && !expired && *input == 0;
-            let case_json = json!({"path": "local", "shadow": shadow, "expiry": expiry, "input": input, "present": present});
+            let h = Handler { input: *input, prompts: Cell::new(0), stacked: *stacked };
+            let res = sm_authenticate_fallback(&h, &opts_fp(false, *first_pass), now, vec![user("alice")], vec![sh.clone()]);
+            // the password that reaches the check: the stacked one when use_first_pass is set and
+            // there is one, else what the user types
+            let offered_right = if *first_pass && *stacked != 0 { *stacked == 1 } else { *input == 0 };
+            let may = *present && good_hash && !expired && offered_right;
+            let case_json = json!({"path": "local", "shadow": shadow, "expiry": expiry, "input": input, "present": present, "first_pass": first_pass, "stacked": stacked});
             if res == PamResultCode::PAM_SUCCESS {
                 if !may {
-                    return (true, Some((format!("local_login_accepted:{slabel}:{elabel}"), format!("no daemon; shadow entry {} with password field `{slabel}` and {elabel}; user input kind {input}: PAM_SUCCESS", if *present { "present" } else { "absent" }), case_json)));
+                    return (true, Some((format!("local_login_accepted:{slabel}:{elabel}"), format!("no daemon; shadow entry {} with password field `{slabel}` and {elabel}; user input kind {input}, use_first_pass {first_pass}, stacked password kind {stacked}: PAM_SUCCESS", if *present { "present" } else { "absent" }), case_json)));
                 }
                 (true, None)
             } else if may {
@@ -326,7 +340,9 @@ pub fn run(args: &[String]) -> ! {
         for expiry in 0..4usize {
             for input in 0..4usize {
                 for present in [true, false] {
-                    cases.push(Case::Local { shadow, expiry, input, present });
+                    for (first_pass, stacked) in [(false, 0usize), (false, 1), (true, 0), (true, 1), (true, 2)] {
+                        cases.push(Case::Local { shadow, expiry, input, present, first_pass, stacked });
+                    }
                 }
             }
         }
@@ -336,7 +352,7 @@ pub fn run(args: &[String]) -> ! {
         let one = match c["path"].as_str() {
             Some("auth") => Case::Auth { seq: c["seq"].as_array().map(|a| a.iter().filter_map(|x| x.as_u64()).map(|x| x as usize).collect()).unwrap_or_default(), input: c["input"].as_u64().unwrap_or(0) as usize, ign: c["ignore_unknown"].as_bool().unwrap_or(false) },
             Some("acct") => Case::Acct { reply: c["reply"].as_u64().unwrap_or(0) as usize, ign: c["ignore_unknown"].as_bool().unwrap_or(false) },
-            _ => Case::Local { shadow: c["shadow"].as_u64().unwrap_or(0) as usize, expiry: c["expiry"].as_u64().unwrap_or(0) as usize, input: c["input"].as_u64().unwrap_or(0) as usize, present: c["present"].as_bool().unwrap_or(true) },
+            _ => Case::Local { shadow: c["shadow"].as_u64().unwrap_or(0) as usize, expiry: c["expiry"].as_u64().unwrap_or(0) as usize, input: c["input"].as_u64().unwrap_or(0) as usize, present: c["present"].as_bool().unwrap_or(true), first_pass: c["first_pass"].as_bool().unwrap_or(false), stacked: c["stacked"].as_u64().unwrap_or(0) as usize },
         };
         cases = vec![one];
     }
@@ -366,7 +382,7 @@ pub fn run(args: &[String]) -> ! {
     ctx.set("distinct_nontrivial", successes);
     ctx.set("runs_that_reported_success", successes);
     ctx.set("mismatches", nbad);
-    ctx.set("rule", format!("connected: every sequence of 1..={depth} daemon replies over {} kinds (every prompt, success, denied, unknown user, poll, error, 3 replies of the wrong kind, a malformed frame, a disconnect; a sequence continues only after a reply that keeps the conversation going) x 4 kinds of user input x ignore_unknown_user; account phase: {} reply kinds; no daemon: {} shadow password fields x 4 expiry settings x 4 inputs x entry present / absent", alpha.len(), acct_alphabet().len(), shadow_alphabet().len()));
+    ctx.set("rule", format!("connected: every sequence of 1..={depth} daemon replies over {} kinds (every prompt, success, denied, unknown user, poll, error, 3 replies of the wrong kind, a malformed frame, a disconnect; a sequence continues only after a reply that keeps the conversation going) x 4 kinds of user input x ignore_unknown_user; account phase: {} reply kinds; no daemon: {} shadow password fields x 4 expiry settings x 4 inputs x entry present / absent x (use_first_pass, password left by an earlier module: none / right / wrong)", alpha.len(), acct_alphabet().len(), shadow_alphabet().len()));
     ctx.set("exhaustive", true);
     ctx.assume("the reference hashes of the right password were produced outside the code under test (openssl passwd -5 / -6, libcrypt yescrypt)");
     ctx.assume("the account phase with the daemon is driven through the test variant of RequestOptions (socket supplied by the harness); reading /etc/passwd, /etc/shadow and the module configuration file is not exercised");
